@@ -429,7 +429,13 @@ def _work(task):
                 spellings = [("absolute", os.path.join(root, "base", "m.onnx"), root), ("relative", "base/m.onnx", root), ("dot_relative", "./base/m.onnx", root),
                              ("bare_name", "m.onnx", os.path.join(root, "base")), ("dot_bare", "./m.onnx", os.path.join(root, "base")),
                              ("dotdot", "../base/m.onnx", os.path.join(root, "base")), ("via_dir_symlink", "baselink/m.onnx", root),
-                             ("model_symlink_same_dir", "mlink.onnx", os.path.join(root, "base")), ("pathlib", __import__("pathlib").Path("m.onnx"), os.path.join(root, "base"))]
+                             ("model_symlink_same_dir", "mlink.onnx", os.path.join(root, "base")), ("pathlib", __import__("pathlib").Path("m.onnx"), os.path.join(root, "base")),
+                             # through a directory symlink and back out: the OS resolves the link before "..", a textual
+                             # normalisation would not (inlink -> base/sub, so inlink/.. is base, not the root)
+                             ("symlinked_dir_then_dotdot", "inlink/../m.onnx", root), ("abs_symlinked_dir_then_dotdot", os.path.join(root, "inlink", "..", "m.onnx"), root),
+                             ("dir_then_dotdot", "base/sub/../m.onnx", root)]
+                if not os.path.lexists(os.path.join(root, "inlink")):
+                    os.symlink(os.path.join("base", "sub"), os.path.join(root, "inlink"))
                 for sname, path, wd in spellings:
                     os.chdir(wd)
                     n += 1
